@@ -7,3 +7,6 @@ from . import modelr   # noqa: F401
 from . import transformr  # noqa: F401
 from . import layoutr  # noqa: F401
 from . import purity   # noqa: F401
+from . import misc     # noqa: F401
+from . import fmt      # noqa: F401
+from . import small    # noqa: F401
